@@ -35,6 +35,27 @@ func PathOf(v ssa.Value) string {
 				return b + "." + fieldName(fa)
 			}
 		}
+		// a parameter spilled to a cell because a closure captures it: *cell is the parameter
+		if al, ok := x.X.(*ssa.Alloc); ok {
+			var src ssa.Value
+			n := 0
+			for _, rf := range *al.Referrers() {
+				if st, ok := rf.(*ssa.Store); ok && st.Addr == ssa.Value(al) {
+					n++
+					src = st.Val
+				}
+			}
+			if n == 1 {
+				if p, ok := src.(*ssa.Parameter); ok {
+					return p.Name()
+				}
+			}
+			return PathOf(al)
+		}
+		// captured variable cell inside a closure
+		if fv, ok := x.X.(*ssa.FreeVar); ok {
+			return fv.Name()
+		}
 	case *ssa.FieldAddr:
 		if b := PathOf(x.X); b != "" {
 			return b + "." + fieldName(x)
